@@ -281,4 +281,13 @@ func NewProviderManager(local peer.ID, ps peerstore.Peerstore, dstore ds.Batchin
   ensures [internal-success-starts-the-loop-close-waits-for] imp(result1 == nil, $spawned && result0 != nil)
   ensures [internal-error-starts-nothing] imp(result1 != nil, !$spawned)
   ghost at go(gcLoop): $spawned = true
+
+# C14: the sweeper is started at most once, under the GC mutex, with a context
+# the store can cancel and the very channel Close waits on
+func (v *ValueStore) StartGC(ctx context.Context, interval time.Duration)
+  props C14 C05
+  ghostvar $n int = 0
+  modifies *
+  ensures [at-most-one-sweeper] $n <= 1 && imp(old(v.gcStarted), $n == 0)
+  ghost at go(gcLoop): assert(held(v.gcMu) && v.gcStarted && $arg1 == interval && $arg2 == v.gcClosed && v.gcClosed != nil && v.maxRecordAge > 0 && interval > 0 && ctxRoot($arg0) == old(ctxRoot(ctx))); $n = $n + 1
 @*/
